@@ -11,7 +11,7 @@ from scipy.optimize import linprog
 import exactqp as xq
 
 
-def best_cert(g, x0, lb, ub, G, h, cones):
+def best_cert(g, x0, lb, ub, G, h, cones, lam_cap=None):
     n = len(x0)
     g = np.asarray(g, dtype=float); lb = np.asarray(lb, dtype=float); ub = np.asarray(ub, dtype=float)
     G = np.asarray(G, dtype=float).reshape(-1, n); h = np.asarray(h, dtype=float)
@@ -52,7 +52,7 @@ def best_cert(g, x0, lb, ub, G, h, cones):
             A_ub[2 * i + 1, :] = -ub[i] * R[i]; A_ub[2 * i + 1, off_t + i] = 1.0; b_ub[2 * i + 1] = ub[i] * g[i]
         else:
             A_ub[2 * i + 1, :] = -R[i]; b_ub[2 * i + 1] = g[i]
-    bounds = [(0, None)] * (nv_tot - n) + [(None, None)] * n
+    bounds = [(0, lam_cap)] * (nv_tot - n) + [(None, None)] * n      # lam_cap normalises Farkas rays
     r = linprog(c, A_ub=A_ub, b_ub=b_ub, bounds=bounds, method="highs")
     lam = np.zeros(p); ys = [np.zeros(m) for m in sizes]
     if r.status == 0:
